@@ -11,6 +11,9 @@ THEOREMS = [
     "Remoc.Table.bufInv_handleData",
     "Remoc.Table.peer_cannot_open_ports",
     "Remoc.Table.listen_queue_bounded",
+    "Remoc.Table.Sys.conforming_no_protocol_error",
+    "Remoc.Table.Sys.deliver_enabled",
+    "Remoc.Table.Sys.conforming_no_panic",
 ]
 RULE = ("one real endpoint; the harness plays the peer and injects frames: a valid prefix (handshake incl. frames that must be "
         "ignored, ports opened from both sides, data within credit, local receive calls) followed by odd-but-legal frames and "
@@ -33,6 +36,11 @@ LEVEL_TEXT = ("Lean 4 theorems over M_table for every sequence of received messa
               "listener queues never exceed connect_queue+1; received messages never create ports. handleRx is a total function: "
               "the accept/terminate decision for every message in every state is part of the model and is compared frame by "
               "frame with a real endpoint under grammar-generated hostile sequences; no panic, no API call left pending.")
+LEVEL_TEXT = LEVEL_TEXT + (" Conforming-peer side: over the two-endpoint system model (lean/RemocModel/Table/Conn.lean) it is proved for "
+                           "ALL interleavings of two conforming endpoints that the message at the head of either wire is always handled "
+                           "without a protocol error (no 'too many OpenPort requests', no answer for a port that is not connecting, no "
+                           "port message for an unknown port or a flag already set) and that every event the API objects queue is "
+                           "handled by handle_event without reaching a panic branch.")
 LEVEL_NOTE = ("Trusted: Lean kernel, hand-written M_table, harness/driver. 'Never panics' is established only by the explored "
               "sequences (panic hook), not by proof; memory is represented by queue lengths and credit counters.")
 TECHNIQUE = "Lean 4 invariant proofs over a total transition function + frame-by-frame differential against a real endpoint fed hostile sequences"
